@@ -53,7 +53,7 @@ func (c12Prop) Race() bool    { return true }
 
 func (c12Prop) Count(tier string) int {
 	if tier == "thorough" {
-		return 30000
+		return 100000
 	}
 	return 500
 }
@@ -72,7 +72,7 @@ func (c12Prop) Assumptions() []string {
 	}
 }
 
-var c12Types = []string{"Flat", "Nested", "Ptrs", "Slices", "OneMap", "Timed", "Padded", "Omit"}
+var c12Types = []string{"Flat", "Nested", "Ptrs", "Slices", "OneMap", "Timed", "Padded", "Omit", "Nulls", "PtrSlices"}
 
 var c12OpNames = []string{"build", "build", "register", "register", "decode", "decode", "decodeproj", "decodeproj", "encode", "encode", "readfile", "readfile", "closebanks", "schema", "parsetime", "parsetime", "encoder"}
 
